@@ -47,6 +47,7 @@ class move_token_left_to_next_non_whitespace_token(structure.Rule):
                 continue
             if oToi.token_type_exists(token.pragma.pragma):
                 continue
+            oToi.set_meta_data("bKeepLineBreak", comment_would_swallow_code(oFile, oToi))
             lReturn.append(oToi)
         return lReturn
 
@@ -57,6 +58,7 @@ class move_token_left_to_next_non_whitespace_token(structure.Rule):
             sSolution = "Move **then** keyword to same line as " + lTokens[0].get_value()
             oViolation = violation.New(oToi.get_line_number(), oToi, sSolution)
             oViolation.set_remap()
+            oViolation.set_action(oToi.get_meta_data("bKeepLineBreak"))
             oViolation.fix_blank_lines = True
             self.add_violation(oViolation)
 
@@ -70,12 +72,22 @@ class move_token_left_to_next_non_whitespace_token(structure.Rule):
 
         lNewTokens = utils.remove_consecutive_whitespace_tokens(lTokens)
 
-        if self.bRemoveTrailingWhitespace:
+        if self.bRemoveTrailingWhitespace and not oViolation.get_action():
             lNewTokens = utils.remove_trailing_whitespace(lNewTokens)
 
         lNewTokens = utils.fix_blank_lines(lNewTokens)
 
         oViolation.set_tokens(lNewTokens)
+
+
+def comment_would_swallow_code(oFile, oToi):
+    if not oToi.token_type_exists(parser.comment):
+        return False
+    try:
+        oNext = oFile.lAllObjects[oToi.get_start_index() + len(oToi.get_tokens())]
+    except IndexError:
+        return False
+    return not isinstance(oNext, parser.carriage_return)
 
 
 def does_a_whitespace_token_separate_tokens(lTokens):
